@@ -12,7 +12,8 @@ from .interp import (Ctx, Interp, Frame, Gap, PathEnd, ReturnEx, ThrowEx, Loc, O
 
 
 class LoopSpec:
-    def __init__(self, inv, frame=None, unroll=None, var=None, after_havoc=None):
+    def __init__(self, inv=None, frame=None, unroll=None, var=None, after_havoc=None, unwind_assert=False):
+        self.unwind_assert = unwind_assert
         self._inv = inv
         self._frame = frame
         self.unroll = unroll
